@@ -21,6 +21,13 @@ theorem doPublish_some {σ σ' : State} (h : doPublish σ = some σ') :
   · rename_i g; exact ⟨g, (Option.some.inj h).symm⟩
   · cases h
 
+theorem doSeqSkip_some {σ σ' : State} {n : Nat} (h : doSeqSkip σ n = some σ') :
+    σ.tr = none ∧ σ.pending = [] ∧
+    σ' = { σ with pub := σ.pub + n, groups := ⟨σ.pub, σ.pub + n, []⟩ :: σ.groups } := by
+  unfold doSeqSkip at h; split at h
+  · rename_i g; exact ⟨g.1, g.2, (Option.some.inj h).symm⟩
+  · cases h
+
 theorem doRotate_some {σ σ' : State} (h : doRotate σ = some σ') :
     σ.tr = none ∧ σ.pending = [] ∧ σ.frozen = none ∧
     σ' = { σ with frozen := some σ.mem, mem := σ.nextId, nextId := σ.nextId + 1, flushed := false } := by
@@ -188,8 +195,10 @@ theorem doTrPublish_some {σ σ' : State} (h : doTrPublish σ = some σ') :
     · cases h
   · cases h
 
-theorem doTrDiscard_some {σ σ' : State} (h : doTrDiscard σ = some σ') :
-    ∃ t, σ.tr = some t ∧ t.installed = false ∧ σ' = { σ with tr := none } := by
+theorem doTrDiscard_some {σ σ' : State} (h : doTrDiscard Cfg.real σ = some σ') :
+    ∃ t, σ.tr = some t ∧ t.installed = false ∧
+      σ' = { σ with tr := none, pub := max σ.pub (t.base + t.priv.length),
+                    groups := ⟨σ.pub, max σ.pub (t.base + t.priv.length), []⟩ :: σ.groups } := by
   unfold doTrDiscard at h; split at h
   · rename_i t ht
     split at h
